@@ -17,6 +17,8 @@
 //!   * diagnostics-left-at-quiescence-are-not-those-of-the-current-contents: once the diagnostics of every open
 //!     document's current version have been published, the last publication for a document (what the editor keeps
 //!     showing) is empty or describes an older text although the current text has its warning.
+//!   * quiescent-answer-differs-from-fresh-server: at quiescence the long-lived server's symbols, semantic tokens and
+//!     hovers for every open document equal those of a fresh server process that has only ever seen the current texts.
 //!   * lsp-no-progress / lsp-server-exited: the server stops answering or dies (never deadlock or crash).
 //! Timing is used to *aim* (delays are swept over the measured duration of an analysis), never to judge.
 
@@ -49,6 +51,8 @@ struct Doc {
     current: Option<u64>,
     /// version label of the current text if open
     current_label: Option<i64>,
+    /// the current text if open
+    current_text: Option<String>,
     /// line of the warning -> id, for every text ever sent for this document
     line_to_id: HashMap<u64, u64>,
     /// version label -> id
@@ -91,6 +95,7 @@ impl Driver {
         self.next_version += 1;
         let import = if d == 0 && self.imports_dep { Some("dep.zy") } else { None };
         let (source, line) = text(id, pad, import);
+        let source_copy = source.clone();
         let doc = &mut self.docs[d];
         doc.line_to_id.insert(line, id);
         doc.label_to_id.insert(version, id);
@@ -105,6 +110,7 @@ impl Driver {
         doc.open = true;
         doc.current = Some(id);
         doc.current_label = Some(version);
+        doc.current_text = Some(source_copy);
         id
     }
 
@@ -121,6 +127,7 @@ impl Driver {
         doc.open = false;
         doc.current = None;
         doc.current_label = None;
+        doc.current_text = None;
     }
 
     fn post_symbols(&mut self, d: usize) -> u64 {
@@ -207,7 +214,7 @@ fn drive(cfg: &Cfg, index: u64, rng: &mut Rng, dir: &Path, binary: &Path, stats:
     let lsp = Lsp::start(binary, Some(&stderr_path)).map_err(|e| format!("cannot start the language server: {e}"))?;
     let docs = names
         .iter()
-        .map(|n| Doc { path: dir.join(n), uri: file_uri(&dir.join(n)), open: false, current: None, current_label: None, line_to_id: HashMap::new(), label_to_id: HashMap::new(), notes: Vec::new() })
+        .map(|n| Doc { path: dir.join(n), uri: file_uri(&dir.join(n)), open: false, current: None, current_label: None, current_text: None, line_to_id: HashMap::new(), label_to_id: HashMap::new(), notes: Vec::new() })
         .collect();
     let mut driver = Driver { lsp, docs, next_id: 1, next_version: 1, posted: Vec::new(), imports_dep: false };
     let fail = |stats: &mut Stats, signature: &str, tag: String, detail: Value| {
@@ -299,7 +306,7 @@ fn drive(cfg: &Cfg, index: u64, rng: &mut Rng, dir: &Path, binary: &Path, stats:
             | 5 => {
                 // the root imports another open document; that document is edited, closed, reopened. At every quiescent
                 // point the root's answers must be those of the current contents of both (checked inside)
-                if let Err(w) = imported_document_history(&mut driver, rng, stats, index) {
+                if let Err(w) = imported_document_history(&mut driver, rng, stats, index, binary) {
                     report_wait(stats, index, kind_name, w);
                     return Ok(());
                 }
@@ -484,6 +491,11 @@ fn drive(cfg: &Cfg, index: u64, rng: &mut Rng, dir: &Path, binary: &Path, stats:
                 );
             }
         }
+        // (d) the same answers as a fresh server on the same texts
+        if let Err(w) = compare_with_fresh_server(&mut driver, binary, stats, index, kind_name) {
+            report_wait(stats, index, kind_name, w);
+            return Ok(());
+        }
         // leave both documents closed for the next history
         for d in 0..2 {
             if driver.docs[d].open {
@@ -533,9 +545,10 @@ fn send_dep(driver: &mut Driver, string_variant: bool) {
     doc.notes.push((stamp, kind, 0));
     doc.open = true;
     doc.current_label = Some(version);
+    doc.current_text = Some(source.to_string());
 }
 
-fn imported_document_history(driver: &mut Driver, rng: &mut Rng, stats: &mut Stats, index: u64) -> Result<(), Wait> {
+fn imported_document_history(driver: &mut Driver, rng: &mut Rng, stats: &mut Stats, index: u64, binary: &Path) -> Result<(), Wait> {
     let mut variant = rng.chance(1, 2);
     send_dep(driver, variant);
     driver.imports_dep = true;
@@ -565,6 +578,9 @@ fn imported_document_history(driver: &mut Driver, rng: &mut Rng, stats: &mut Sta
                                "imported_document": if driver.docs[2].open { if variant { "open, a string" } else { "open, unit" } } else { "closed (unit on disk)" }}),
             });
         }
+        if step % 2 == 0 {
+            compare_with_fresh_server(driver, binary, stats, index, "imported-document-edited")?;
+        }
         if step == steps {
             break;
         }
@@ -584,6 +600,78 @@ fn imported_document_history(driver: &mut Driver, rng: &mut Rng, stats: &mut Sta
     }
     if driver.docs[2].open {
         driver.close(2);
+    }
+    Ok(())
+}
+
+/// The answers a server gives about the open documents: symbols, semantic tokens, a hover in the last line but one
+/// of the block (the use of the defined names), for every open document in order.
+fn answers_about(lsp: &mut Lsp, open: &[(String, String)]) -> Result<Vec<(String, Value)>, Wait> {
+    let mut out = Vec::new();
+    for (uri, source) in open {
+        let symbols = lsp.request("textDocument/documentSymbol", json!({"textDocument": {"uri": uri}}), QUIET)?;
+        out.push((format!("documentSymbol {uri}"), symbols["result"].clone()));
+        let tokens = lsp.request("textDocument/semanticTokens/full", json!({"textDocument": {"uri": uri}}), QUIET)?;
+        out.push((format!("semanticTokens {uri}"), tokens["result"]["data"].clone()));
+        let lines = source.lines().count() as u64;
+        if lines >= 2 {
+            for character in [3u64, 10] {
+                let hover = lsp.request("textDocument/hover", json!({"textDocument": {"uri": uri}, "position": {"line": lines - 2, "character": character}}), QUIET)?;
+                out.push((format!("hover {uri} {}:{character}", lines - 2), hover["result"].clone()));
+            }
+        }
+    }
+    Ok(out)
+}
+
+/// "The same results as if executed one at a time": at a quiescent point the long-lived server's answers about the
+/// open documents are compared with those of a fresh server that has only ever seen the current texts.
+fn compare_with_fresh_server(driver: &mut Driver, binary: &Path, stats: &mut Stats, index: u64, history: &str) -> Result<(), Wait> {
+    let open: Vec<(String, String)> = driver.docs.iter().filter_map(|d| d.current_text.as_ref().map(|t| (d.uri.clone(), t.clone()))).collect();
+    if open.is_empty() {
+        return Ok(());
+    }
+    let own = answers_about(&mut driver.lsp, &open)?;
+    let Ok(mut fresh) = Lsp::start(binary, None) else { return Ok(()) };
+    let setup = (|| -> Result<Vec<(String, Value)>, Wait> {
+        fresh.request("initialize", json!({"processId": null, "capabilities": {}}), QUIET)?;
+        fresh.notify("initialized", json!({}));
+        for (uri, source) in &open {
+            fresh.notify("textDocument/didOpen", json!({"textDocument": {"uri": uri, "languageId": "zydeco", "version": 1, "text": source}}));
+        }
+        // wait for one publication per document: the fresh server is quiescent too
+        for (uri, _) in &open {
+            match fresh.wait_for(0, QUIET, |r| r.message["method"] == "textDocument/publishDiagnostics" && r.message["params"]["uri"].as_str() == Some(uri.as_str()) && r.message["params"]["version"].as_i64() == Some(1)) {
+                | Wait::Got(_) => {}
+                | other => return Err(other),
+            }
+        }
+        answers_about(&mut fresh, &open)
+    })();
+    let reference = match setup {
+        | Ok(r) => r,
+        | Err(_) => {
+            // the reference itself failed: no verdict on the long-lived server
+            stats.inconclusive("fresh reference server did not answer");
+            return Ok(());
+        }
+    };
+    fresh.finish();
+    stats.count("lsp_differential_comparisons");
+    for ((what, mine), (_, theirs)) in own.iter().zip(reference.iter()) {
+        stats.count("lsp_differential_answers");
+        if mine != theirs {
+            let method = what.split_whitespace().next().unwrap_or("").to_string();
+            stats.violation(Violation {
+                signature: format!("quiescent-answer-differs-from-fresh-server {method}"),
+                tags: vec![history.to_string()],
+                generator: "lsp".into(),
+                index,
+                detail: json!({"history": history, "request": what, "long_lived_server": mine.to_string().chars().take(1200).collect::<String>(), "fresh_server_on_the_same_texts": theirs.to_string().chars().take(1200).collect::<String>(),
+                               "open_documents": open.iter().map(|(u, t)| json!({"uri": u, "bytes": t.len()})).collect::<Vec<_>>()}),
+            });
+            break;
+        }
     }
     Ok(())
 }
